@@ -150,6 +150,41 @@ def task_structured(t, res):
                 res.nontrivial((name, n, s, e))
 
 
+def thin(kind, n):
+    """one- and two-cell-wide grids with a long side: ladder (every rung), ladder with the rail cut around index 128 (detour over
+    the other rail), corridor"""
+    r, c = (1, n) if kind == "corridor" else (2, n)
+    cl = np.zeros((2, r, c), dtype=bool)
+    cl[1, :, : c - 1] = True
+    if r == 2:
+        cl[0, 0, :] = True
+    if kind == "ladder_cut":
+        cl[1, 0, 126:130] = False  # the upper rail is cut around column 128: routes along it must go down and up again
+    return cl
+
+
+def task_thin(t, res):
+    from maze_dataset.maze import LatticeMaze
+
+    kind, n, tr = t["kind"], t["n"], t["transpose"]
+    cl = thin(kind, n)
+    if tr:
+        cl = np.stack([cl[1].T, cl[0].T])
+    m = LatticeMaze(connection_list=cl)
+    adj = R.adjacency(cl)
+    r, c = cl.shape[1:]
+    long_axis = 1 if c > r else 0
+    marks = sorted({0, 1, 63, 126, 127, 128, 129, 130, n - 2, n - 1} & set(range(n)))
+    cells = [((w, k) if long_axis == 1 else (k, w)) for k in marks for w in range(min(r, c))]
+    for s in cells:
+        dist = {s: R.bfs_dist(adj, s)}
+        for e in cells:
+            rd = dict(thin=kind, n=n, transpose=tr, bits=f"{kind}{n}", s=s, e=e)
+            judge(m, adj, dist, s, e, res, f"{kind}{'T' if tr else ''}{n}", rd)
+            if dist[s].get(e) is not None and max(s + e) >= 128:
+                res.nontrivial((kind, n, tr, s, e))
+
+
 def run(ctx):
     tasks = []
     shapes = [(1, 1), (1, 2), (2, 1), (1, 3), (3, 1), (2, 2), (2, 3), (3, 2), (3, 3)]
@@ -168,8 +203,12 @@ def run(ctx):
         for name in structured(n):
             st.append(dict(n=n, name=name))
     ctx.pmap("mzcheck.checks.c02", "task_structured", st)
+    thin_tasks = [dict(kind=k, n=n, transpose=tr) for k in ("ladder", "ladder_cut", "corridor") for n in ((129, 131) if ctx.quick else (129, 131, 200, 257, 300))
+                  for tr in (False, True)]
+    ctx.pmap("mzcheck.checks.c02", "task_thin", thin_tasks)
     ctx.coverage.update(grids=[list(s) for s in shapes], graphs=sum(R.n_graphs(*s) for s in shapes),
                         structured=[f"{t['name']}{t['n']}" for t in st],
+                        thin_grids=[f"{t['kind']}{'T' if t['transpose'] else ''}{t['n']}" for t in thin_tasks],
                         mixed_sequences=dict(groups=[[list(x) for x in g] for g in groups], orders=["interleaved", "reversed"],
                                              graphs=ctx.res.counters.get("mixed_sequence_graphs", 0)))
     ctx.rule = ("every connection structure (bit vector over lattice edges) on the listed grids x every ordered (start,end) pair, vs reference BFS; "
@@ -182,7 +221,12 @@ def replay(d, res):
     from maze_dataset.maze import LatticeMaze
 
     s, e = tuple(d["s"]), tuple(d["e"])
-    if "structured" in d:
+    if "thin" in d:
+        cl = thin(d["thin"], d["n"])
+        if d["transpose"]:
+            cl = np.stack([cl[1].T, cl[0].T])
+        label = f"{d['thin']}{'T' if d['transpose'] else ''}{d['n']}"
+    elif "structured" in d:
         cl = structured(d["n"])[d["structured"]]
         label = f"{d['structured']}{d['n']}"
     else:
